@@ -28,13 +28,13 @@ CLAIMED = {
     text='Bounded symbolic model checking through the whole real pipeline: 23 program templates (shadowed globals read from functions and where-clauses, parameters shadowing globals, where-clause locals, argument order, nested conditionals, negated comparisons, && / || / !, bounded recursion, function values, reverse application, struct field order and nested access, list head/tail/cons/len, string interpolation order, division by zero) are interpreted by a real session with every scalar literal a symbolic double injected through the __verif_sym hook; on every feasible path the produced value must equal, bit for bit, the value of a reference evaluator that applies the language rules to the template directly. The solver explores every branch combination of the compiled bytecode (jump patching, local/global slot selection, call frames, struct/list/string construction) for all values, including NaN, infinities and signed zeros.',
     design_ref='DESIGN.md §4 C09', technique='symbolic execution of LLVM IR (whole interpreter pipeline) + SMT (z3 QF_FPBV), reference-evaluator differential, native replay'),
  'C10': dict(
-    text='Bounded symbolic model checking of the compiled parser: Parser::parse runs on token streams whose token kinds are symbolic (37-kind expression alphabet), next to an independent table-driven reference parser transcribed from the documented precedence table; on every feasible path either both reject the sequence or the two syntax trees are structurally identical. Exhaustive over all sequences up to the stated length, plus longer templates (three- and four-operand expressions, conditionals, unary/postfix combinations, parentheses, calls) whose operator positions are symbolic over all 23 operators. All-sequences-within-a-bound is the right level because a precedence or associativity slip shows only for a particular pair of operators in a particular arrangement.',
+    text='Bounded symbolic model checking of the compiled parser: Parser::parse runs on token streams whose token kinds are symbolic (37-kind expression alphabet), next to an independent table-driven reference parser transcribed from the documented precedence table; on every feasible path either both reject the sequence or the two syntax trees are structurally identical. Exhaustive over all sequences up to the stated length, plus longer templates (three- and four-operand expressions, conditionals, unary/postfix combinations, parentheses, calls) whose operator positions are symbolic over all 23 operators. A second kernel runs the real tokenizer and parser on hexadecimal / octal / binary literals whose digits are symbolic within a character class per position (up to 32 / 43 / 128 digits): the literal evaluates to the double nearest to the integer its digits spell, separators are ignored, and a literal of 128 bits is rejected rather than wrapped. All-sequences-within-a-bound is the right level because a precedence or associativity slip shows only for a particular pair of operators in a particular arrangement.',
     design_ref='DESIGN.md §4 C10', technique='symbolic execution of LLVM IR + SMT (z3 QF_BV), replay-mode path exploration, reference-parser differential'),
  'C14': dict(
-    text='Partial claim (integer branch, bounded magnitude), bounded symbolic model checking of the compiled code: Number::pretty_print_with (integer branch: is_integer test, conversion to i64, num_format digit extraction and grouping) runs on a symbolic integer-valued double with concrete separator / threshold settings; on every feasible path the text consists of an optional minus and digits with separators only between groups of three, reading the digits back gives exactly |x| (all digits are shown), the sign is shown, and grouping is used exactly from the configured threshold on. The floating-point branch is outside reach.',
+    text='Partial claim (integer branch; magnitudes below a bound plus windows around 2^31, 2^32, 2^53 and powers of ten), bounded symbolic model checking of the compiled code: Number::pretty_print_with (integer branch: is_integer test, conversion to i64, num_format digit extraction and grouping) runs on a symbolic integer-valued double with concrete separator / threshold settings; on every feasible path the text consists of an optional minus and digits with separators only between groups of three, reading the digits back gives exactly |x| (all digits are shown), the sign is shown, and grouping is used exactly from the configured threshold on. The floating-point branch is outside reach.',
     design_ref='DESIGN.md §0a / §4 C14', technique='symbolic execution of LLVM IR + SMT (z3 QF_FPBV/QF_BV), replay-mode path exploration'),
  'C15': dict(
-    text='Partial claim (string literals only), bounded symbolic model checking of the compiled code: for every string over the 14 characters that the escaping and unescaping code distinguishes (quote, backslash, braces, the escape letters, control characters, ordinary characters) up to the stated length, the echoed literal — quote + escape_numbat_string(s) + quote — is tokenized by the real tokenizer as one plain string token and parsed by the real parser back to exactly s, and echoing the re-read string reproduces the same text. The decorator echo defect named in the property text is a single concrete input outside this kernel and is NOT found.',
+    text='Partial claim (expression statements and string literals), bounded symbolic model checking of the compiled code. (a) Expressions: the real parser runs on token streams whose kinds are symbolic (37-kind alphabet; every sequence up to the stated length and templates with symbolic operator positions); for every sequence it accepts, the source text goes through the whole pipeline (Context::interpret in a session with x = 3), the typed statement is pretty-printed, and the echo is interpreted again in the same session: it must be accepted, have the same type scheme, evaluate to the bit-identical value, and echo to the same text; a panic anywhere is a violation. (b) String literals: for every string over the 14 characters that the escaping and unescaping code distinguishes (quote, backslash, braces, the escape letters, control characters, ordinary characters) up to the stated length, the echoed literal — quote + escape_numbat_string(s) + quote — is tokenized by the real tokenizer as one plain string token and parsed by the real parser back to exactly s, and echoing the re-read string reproduces the same text. The decorator echo defect named in the property text is a single concrete input outside this kernel and is NOT found.',
     design_ref='DESIGN.md §0a / §4 C15', technique='symbolic execution of LLVM IR + SMT (z3 QF_BV), replay-mode path exploration'),
  'C18': dict(
     text='Bounded symbolic model checking of the compiled list.rs: (a) one inductive step — from every representation state satisfying the invariant (view absent or (s,e) with s<=e==alloc.len(); allocation length up to the bound, ring buffer rotated or not, sole owner or sharing with a second handle with/without a view) each of the 9 public operations, chosen symbolically with symbolic element values, must leave the operated handle with exactly the elements of a plain sequence model, leave the other handle unchanged and re-establish the invariant; because the post-state satisfies the invariant the step composes to histories of any length; (b) every history of k operations over three handles from new() through the public API only, which also shows the reachable states satisfy the assumed invariant.',
@@ -52,7 +52,7 @@ CLAIMED = {
     text='Bounded symbolic model checking of the compiled code: for each selected pair of same-dimension standard-library units (with prefixes) the real VM comparison opcodes and Quantity::eq are executed symbolically with both magnitudes ranging over all 2^64 double bit patterns; every feasible path is explored and each of the property\'s clauses (== symmetric, < mirrors >, <= mirrors >=, != negates ==, trichotomy for non-NaN, NaN makes orderings false) is discharged by the solver or refuted with a model that is replayed against the native build. All-values-within-a-pair is the right level because the defect class is a rounding coincidence between two conversion directions that sampling does not hit.',
     design_ref='DESIGN.md §4 C11', technique='symbolic execution of LLVM IR + SMT (z3 QF_FPBV), native replay'),
  'C23': dict(
-    text='Partial claim (temperature scales), bounded symbolic model checking through the whole real pipeline: the real module physics::temperature_conversion is imported into a real session; for a symbolic double x with |x| <= 10^6 the programs celsius(from_celsius(x)) and from_celsius(celsius(x kelvin)) (thorough tier: the Fahrenheit pair as well) are interpreted, and the solver proves the round trip restores x within 1e-9 (1e-8) on every feasible path. This is a floating-point tolerance claim that is decidable because the Celsius pair only adds and subtracts a constant.',
+    text='Partial claim (temperature scales), bounded symbolic model checking through the whole real pipeline: the real module physics::temperature_conversion is imported into a real session; for a symbolic double x with |x| <= 10^6 the programs celsius(from_celsius(x)) and from_celsius(celsius(x kelvin)), also with the temperature written in millikelvin (thorough tier: the Fahrenheit pair and further prefixes as well) are interpreted, and the solver proves the round trip restores x within 1e-9 (1e-8) on every feasible path. This is a floating-point tolerance claim that is decidable because the Celsius pair only adds and subtracts a constant.',
     design_ref='DESIGN.md §0a / §4 C23', technique='symbolic execution of LLVM IR (whole interpreter pipeline) + SMT (z3 QF_FP), native replay'),
  'C02': dict(
     text='Partial claim (the constraint solver), bounded symbolic model checking of the compiled code: ConstraintSet::solve (Constraint::try_satisfy, DType::from_factors / divide / multiply / power with their canonicalisation, Substitution::apply) runs on dimension equations over two type variables and two base dimensions whose exponents are symbolic integers in [-3, 3]; on every feasible path the solver must accept exactly the systems that are consistent over the rationals (decided by an integer determinant / minor oracle), and the returned substitution must make both sides of every equation the same dimension. Accept/reject of whole programs and constraint generation are outside the claim.',
